@@ -418,6 +418,10 @@ impl FixtureDatabase {
     ) -> HashSet<String> {
         let canonical_path = self.get_canonical_path(file_path.to_path_buf());
 
+        // A nested call may be cut short by `visited` (circular imports), so only the result of a
+        // top-level call is complete and may be memoised.
+        let is_top_level_call = visited.is_empty();
+
         // Prevent circular imports
         if visited.contains(&canonical_path) {
             debug!("Circular import detected for {:?}, skipping", file_path);
@@ -448,14 +452,16 @@ impl FixtureDatabase {
         let imported_fixtures = self.compute_imported_fixtures(&canonical_path, &content, visited);
 
         // Store in cache
-        self.imported_fixtures_cache.insert(
-            canonical_path.clone(),
-            (
-                content_hash,
-                current_version,
-                Arc::new(imported_fixtures.clone()),
-            ),
-        );
+        if is_top_level_call {
+            self.imported_fixtures_cache.insert(
+                canonical_path.clone(),
+                (
+                    content_hash,
+                    current_version,
+                    Arc::new(imported_fixtures.clone()),
+                ),
+            );
+        }
 
         info!(
             "Found {} imported fixtures for {:?}: {:?}",
